@@ -11,6 +11,7 @@ import (
 	"reflect"
 	"sort"
 	"strings"
+	"sync"
 	"time"
 	"unicode/utf8"
 
@@ -936,5 +937,72 @@ func init() {
 			out = strConcat(out, fr.i.errorValue(fr, e.(iface)))
 		}
 		return out
+	}
+}
+
+// strings.Replacer: host object for concrete inputs; its argument pairs are
+// remembered so that Replace can be run on symbolic strings (same semantics:
+// left to right, no overlaps, pairs tried in argument order).
+var replacerPairs sync.Map // *strings.Replacer -> []string
+
+func init() {
+	intrinsics["strings.NewReplacer"] = func(fr *frame, fn *ssa.Function, a []value) value {
+		args := a[0].([]value)
+		pairs := make([]string, len(args))
+		for k, x := range args {
+			s, ok := x.(string)
+			if !ok {
+				panic(unsupported("strings.NewReplacer with symbolic arguments"))
+			}
+			pairs[k] = s
+		}
+		if len(pairs)%2 == 1 {
+			fr.rtPanic("strings.NewReplacer: odd argument count")
+		}
+		r := strings.NewReplacer(pairs...)
+		replacerPairs.Store(r, pairs)
+		return native{r}
+	}
+	intrinsics["(*strings.Replacer).Replace"] = func(fr *frame, fn *ssa.Function, a []value) value {
+		n, ok := a[0].(native)
+		if !ok {
+			panic(declined{})
+		}
+		if _, isSym := a[1].(*sstr); !isSym {
+			panic(declined{})
+		}
+		pv, ok := replacerPairs.Load(n.x)
+		if !ok {
+			panic(unsupported("Replace on a strings.Replacer not created through the engine"))
+		}
+		pairs := pv.([]string)
+		for k := 0; k < len(pairs); k += 2 {
+			if pairs[k] == "" {
+				panic(unsupported("strings.Replacer with an empty old string on symbolic input"))
+			}
+		}
+		s := a[1]
+		f := fr.f()
+		var out []value
+		for i := 0; i < strLen(s); {
+			matched := false
+			for k := 0; k < len(pairs); k += 2 {
+				old := pairs[k]
+				if i+len(old) > strLen(s) {
+					continue
+				}
+				if fr.i.p.Branch(strEqTerm(f, strSlice(s, i, i+len(old)), old)) {
+					out = append(out, strBytes(pairs[k+1])...)
+					i += len(old)
+					matched = true
+					break
+				}
+			}
+			if !matched {
+				out = append(out, strAt(s, i))
+				i++
+			}
+		}
+		return mkStr(out)
 	}
 }
